@@ -1,4 +1,4 @@
-//@@ unit props=C01,C07,C14,C16,C17,C20,C06
+//@@ unit props=C01,C07,C13,C14,C16,C17,C20,C06
 // Unit ctors: the constructors of the xlsx / xls / ods readers, the prologue reader of an xlsx sheet part, and the thin accessors of the
 // eager readers that no other unit has under contract.
 //
@@ -721,6 +721,14 @@ pub broadcast proof fn axiom_question_mark_from<S: From<T>, T>(e: T, r: S)
 pub assume_specification<T: Default, E>[ Result::<T, E>::unwrap_or_default ](r: Result<T, E>) -> (o: T)
     ensures r matches Ok(v) ==> o == v;
 
+// TRUSTED: A-std -- Option::transpose: "None -> Ok(None), Some(Ok(x)) -> Ok(Some(x)), Some(Err(e)) -> Err(e)" (same text as in unit odsxml):
+// not called by the verified text; present so that an edit using it is verified against the contracts, not rejected
+pub assume_specification<T, E>[ Option::<Result<T, E>>::transpose ](o: Option<Result<T, E>>) -> (r: Result<Option<T>, E>)
+    ensures
+        o is None ==> r == Ok::<Option<T>, E>(None),
+        o matches Some(Ok(x)) ==> r == Ok::<Option<T>, E>(Some(x)),
+        o matches Some(Err(e)) ==> r == Err::<Option<T>, E>(e);
+
 // ---- A-zip: the zip container.  TRUSTED: `ZipArchive` is a stand-in for zip::read::ZipArchive (opaque).
 #[verifier::external_body]
 #[verifier::accept_recursive_types(RS)]
@@ -893,6 +901,9 @@ pub open spec fn xls_default_options() -> XlsOptions { XlsOptions { force_codepa
 
 // TRUSTED: stand-in for crate::cfb::Cfb (opaque).  `dirs()`: its directory entries (unit cfb).
 #[verifier::external_body] pub struct Cfb { _opaque: u8 }
+// TRUSTED: `#[derive(Clone)]` on `struct Cfb` of src/cfb.rs (field-wise clone: the copy equals the original).  Not called by the real
+// text of this unit; present so that an edit working on a COPY of the container is verified against the run contract, not rejected
+impl Clone for Cfb { #[verifier::external_body] fn clone(&self) -> (r: Self) ensures r == *self { unimplemented!() } }
 /// one `Cfb::new(reader, len)` call can take the reader from o to n with result res -- contract PROVED in unit cfb (C13,C20.new_rejects_invalid_header,
 /// C13.new_parses_container); this unit looks at none of the clauses
 pub uninterp spec fn cfb_new_call<R>(o: R, len: usize, n: R, res: Result<Cfb, CfbError>) -> bool;
@@ -1023,10 +1034,12 @@ proof fn lemma_xls_password_only_if_filepass<RS: Read + Seek>(r4: RS, cfb: Cfb, 
 }
 
 //@@ impl src/xls.rs Xls
-//@@ fn src/xls.rs Xls::new_with_options props=C20,C16,C07 entry ret=r mutparams
+//@@ fn src/xls.rs Xls::new_with_options props=C20,C16,C07,C13 entry ret=r mutparams
 //@@ sig
     ensures
-        //# C20,C16,C07.xls_new_is_container_then_vba_then_workbook_with_workbook_errors_first
+        // (C13: ONE container state is threaded through -- Cfb::new -> from_cfb -> parse_workbook: the workbook stream is read from the
+        // container AS THE VBA READ LEFT IT (`cfb2`), the reader and the lazily buffered sector table advance together)
+        //# C20,C16,C07,C13.xls_new_is_container_then_vba_then_workbook_with_workbook_errors_first
         xls_new_run(__p_reader, options, r),
 //@@ body
         broadcast use axiom_question_mark_from;
